@@ -12,6 +12,7 @@ pub struct Ctx<'a> {
     pub uni: Vec<BoardMove>,
     pub uni_every: usize, // universe check on every n-th record (0 = never)
     pub nrec: usize,
+    pub thin: usize,
     pub prefix: String,
     pub ncase: usize,
 }
@@ -20,7 +21,10 @@ impl<'a> Ctx<'a> {
     pub fn case_id(&mut self) -> String { self.ncase += 1; format!("{}{}", self.prefix, self.ncase) }
     fn rec_flags(&mut self) -> u32 {
         self.nrec += 1;
-        if self.uni_every > 0 && self.nrec % self.uni_every == 0 { self.flags | F_UNIVERSE } else { self.flags }
+        let mut fl = self.flags;
+        // the per-position sub-universe is the dominant cost: in the thorough tier (thin > 1) it is applied to every thin-th record
+        if self.thin > 1 && self.nrec % self.thin != 0 { fl &= !F_MINIUNI }
+        if self.uni_every > 0 && self.nrec % self.uni_every == 0 { fl | F_UNIVERSE } else { fl }
     }
     /// ply-0 record: construct from the descriptor (through the piece-list path or harness-written FEN)
     pub fn start(&mut self, id: &str, d: &Desc, via_fen: bool) -> Option<ChessBoard> {
